@@ -1,6 +1,7 @@
 package lens
 
 import (
+	"encoding/pem"
 	"bytes"
 	"context"
 	"crypto/x509"
@@ -12,7 +13,6 @@ import (
 	"sort"
 	"strings"
 
-	corex509 "github.com/notaryproject/notation-core-go/x509"
 	"github.com/notaryproject/notation-go/dir"
 	"github.com/notaryproject/notation-go/verifier/truststore"
 
@@ -34,7 +34,7 @@ func (c13) Components() map[string]string {
 	return map[string]string{
 		"truststore.x509TrustStore.GetCertificates, ValidateCertificates, internal/file.IsValidFileName, dir.X509TrustStoreDir": "real",
 		"os":                  "simos shim over tmpfs (faults on Lstat / ReadDir)",
-		"certificate parsing": "notation-core-go ReadCertificateFile (trusted base, also used by the oracle)",
+		"certificate parsing": "notation-core-go ReadCertificateFile on the simulated os (scratch copy of the dependency with the same import re-pointing); the oracle reads the files with the real os and parses them with crypto/x509 + encoding/pem itself",
 		"reference model":     "independent reading of the directory tree: exact certificate multiset or whole failure",
 	}
 }
@@ -78,8 +78,13 @@ func (c13) Gen(r *rand.Rand, tier string, idx int) *core.Plan {
 		}
 	}
 	p.Ops = append(p.Ops, core.Op{Kind: "load", S: []string{validType(), core.Pick(r, "s1", "s2", ".", "with.dot", "..")}})
-	if r.IntN(5) == 0 {
+	switch r.IntN(10) {
+	case 0, 1:
 		p.Faults = append(p.Faults, rt.Fault{Task: 0, Op: core.Pick(r, "lstat", "readdir"), Nth: r.IntN(4), Kind: core.Pick(r, "EIO", "EACCES")})
+	case 2, 3:
+		// one certificate file of a store cannot be opened or read (the files are read by notation-core-go,
+		// whose scratch copy runs on the simulated os as well)
+		p.Faults = append(p.Faults, rt.Fault{Task: 0, Op: core.Pick(r, "open", "read"), Nth: r.IntN(8), Kind: core.Pick(r, "EIO", "EACCES", "EMFILE")})
 	}
 	return p
 }
@@ -114,7 +119,7 @@ func c13Expect(root, typ, name string) (certs []*x509.Certificate, why string) {
 		if e.IsDir() || e.Type()&os.ModeSymlink != 0 || !e.Type().IsRegular() {
 			return nil, "entry " + e.Name() + " is not a regular file"
 		}
-		cs, err := corex509.ReadCertificateFile(filepath.Join(path, e.Name()))
+		cs, err := c13ParseFile(filepath.Join(path, e.Name()))
 		if err != nil || len(cs) == 0 {
 			return nil, "file " + e.Name() + " holds no parseable certificate"
 		}
@@ -258,10 +263,12 @@ func (l c13) Exec(env *core.Env) *core.Result {
 					res.Violate("C13/partial-set-returned-with-error", key, "GetCertificates returned %d certificates together with an error: %v", len(got), err)
 				}
 				if faulted {
-					if err == nil {
-						res.Violate("C13/load-succeeded-despite-io-error", key, "an I/O error was injected into the load but it returned %d certificates and no error", len(got))
+					if err != nil {
+						continue // a load that fails under an injected I/O error fails as a whole: fine
 					}
-					continue
+					// it succeeded although a step failed (the failing step was retried, or does not matter): then the
+					// result is judged like any other - exactly the store's certificates, never a partial set
+					res.Probe("load_succeeded_although_a_step_failed")
 				}
 				switch {
 				case why != "" && err == nil:
@@ -283,4 +290,28 @@ func (l c13) Exec(env *core.Env) *core.Result {
 	core.ReportPanics(res, sim, "C13")
 	res.Sample = map[string]any{"plan": p, "trace": trace}
 	return res
+}
+
+// c13ParseFile is the oracle's own reading of a certificate file (real os, not the
+// simulated one: the oracle's reads must not consume injected faults): PEM if the
+// content starts a PEM block, else DER, one or more certificates.
+func c13ParseFile(path string) ([]*x509.Certificate, error) {
+	data, err := os.ReadFile(path)
+	if err != nil {
+		return nil, err
+	}
+	block, rest := pem.Decode(data)
+	if block == nil {
+		return x509.ParseCertificates(data)
+	}
+	var out []*x509.Certificate
+	for block != nil {
+		c, err := x509.ParseCertificate(block.Bytes)
+		if err != nil {
+			return nil, err
+		}
+		out = append(out, c)
+		block, rest = pem.Decode(rest)
+	}
+	return out, nil
 }
